@@ -270,7 +270,8 @@ func (p *renderState) renderExpression(expr ast.Expression, wrap bool, dot bool)
 			}
 		} else {
 			if wrap {
-				result = template.HTMLEscapeString(expr.Value)
+				// written into the template source as text, like a text node
+				result = quoteDelimiters(template.HTMLEscapeString(expr.Value))
 			} else {
 				result = fmt.Sprintf(`%q`, expr.Value)
 			}
